@@ -68,7 +68,8 @@ class Conn:
 
 
 class Driver:
-    def __init__(self, workers=("w1", "w2", "w3"), clients=("k1",), policy=None, channels=CHANNELS):
+    def __init__(self, workers=("w1", "w2", "w3"), clients=("k1",), policy=None, channels=CHANNELS, result_hook=None):
+        self.result_hook = result_hook or (lambda op: "r")
         self.clock = Clock(1)
         qs.jobs.time = self.clock
         self.chooser = Chooser(self)
@@ -306,7 +307,7 @@ class Driver:
                 c = self.conns[op["w"]]
                 err = None if op["err"] == "none" else "boom"
                 try:
-                    c.plugin.rpc_qfinish(op["id"], result=("r" if err is None else None), error=err)
+                    c.plugin.rpc_qfinish(op["id"], result=(self.result_hook(op) if err is None else None), error=err)
                 except KeyError:
                     ev["error"] = True
             elif kind == "kill":
